@@ -477,7 +477,10 @@ def ex_winterp(c):
         woc, w, unch = wrun(x, y, lambda w: go(w, lambda w: w.interpolate(n=c["n"], **kw)))
     else:
         q = arr(c["q"], c.get("qcontainer", "array"))
-        woc, w, unch = wrun(x, y, lambda w: go(w, lambda w: w.interpolate(new_x=q, **kw)))
+        if c.get("also_n"):         # both arguments in one call: documented - n is ignored when a grid is given
+            woc, w, unch = wrun(x, y, lambda w: go(w, lambda w: w.interpolate(n=c["also_n"], new_x=q, **kw)))
+        else:
+            woc, w, unch = wrun(x, y, lambda w: go(w, lambda w: w.interpolate(new_x=q, **kw)))
     if pre:
         unch = True          # the frame flag compares with the state before the history: not meaningful here
     e = {k: v for k, v in c.items() if k not in ("x0", "y0", "pre")}
